@@ -1,8 +1,9 @@
 """C19 — check configuration and MANIFEST entry."""
-CFG = {'assumptions': ['f64 inputs cross the boundary as bit patterns and are decoded to exact rationals; Rust f64 '
+CFG = {
+ 'translator': True,'assumptions': ['f64 inputs cross the boundary as bit patterns and are decoded to exact rationals; Rust f64 '
                  'ops are IEEE-754'],
  'count': {'quick': 30000, 'thorough': 1500000},
- 'lean_files': ['GeoModel/Traverse.lean', 'GeoModel/PolygonSM.lean', 'GeoModel/Ops/C19.lean'],
+ 'lean_files': ['GeoModel/Gen/Kernel.lean', 'GeoProofs/Lemmas/GenKernel.lean', 'GeoModel/Traverse.lean', 'GeoModel/PolygonSM.lean', 'GeoModel/Ops/C19.lean'],
  'rule': 'random geometries of all 10 types and nested collections (depth<=3, empty members, 0-2 holes, '
          'open/empty rings closed by the constructor) x {traversal+bbox+extremes, map/try_map with exact '
          'integer-affine or constant maps and a value-triggered failure}; distinct by input text; cases '
